@@ -205,7 +205,21 @@ func runHomSequence[K commitments.HomomorphicCommitmentKey[K, M, W, C, S], M com
 			must("Shift", e1)
 			must("MessageOp(shift)", e2)
 		case "rerand":
+			// the shift is a witness: a freshly drawn one, the accumulated witness of the
+			// sequence so far (after sums and scalar multiples it lies far outside the
+			// sampling range), or a scalar multiple of a fresh one
 			w2, _ := env.drawW(t, lbl+".w")
+			switch rapid.SampledFrom([]string{"fresh", "accumulated", "scaled"}).Draw(t, lbl+".shiftkind") {
+			case "accumulated":
+				w2 = w
+				kind = "rerand:accumulated"
+			case "scaled":
+				s, cls, _ := env.drawS(t, lbl+".s")
+				if ws, err := key.WitnessScalarOp(w2, s); err == nil {
+					w2 = ws
+					kind = "rerand:scaled:" + cls
+				}
+			}
 			var e1, e2 error
 			c, e1 = key.ReRandomise(c, w2)
 			w, e2 = key.WitnessOp(w, w2)
